@@ -29,7 +29,7 @@ Section BlobProofs.
       assert (exists r, post_input t i = Some r) as [[i' f] Hp].
       { unfold post_input, input_consistent in *. destruct (i_nwu i) as [ptx|]; [|eexists; reflexivity].
         apply andb_true_iff in Hi. destruct Hi as [Hid Ho]. rewrite Hid. cbn [negb].
-        destruct (nth_error (pt_outs ptx) (N.to_nat (ti_vout t))) as [o|]; [|discriminate].
+        destruct (nth_N (pt_outs ptx) (ti_vout t)) as [o|]; [|discriminate].
         destruct (i_wu i) as [w|]; [rewrite Ho|]; eexists; reflexivity. }
       rewrite Hp. eexists. reflexivity.
   Qed.
@@ -69,7 +69,7 @@ Lemma post_input_spec t i i' f :
 Proof.
   unfold post_input, ref_prevout, ref_flag. destruct (i_nwu i) as [ptx|] eqn:En.
   - destruct (negb (bytes_eqb (pt_txid ptx) (ti_txid t))); [discriminate|].
-    destruct (nth_error (pt_outs ptx) (N.to_nat (ti_vout t))) as [o|]; [|discriminate].
+    destruct (nth_N (pt_outs ptx) (ti_vout t)) as [o|]; [|discriminate].
     destruct (i_wu i) as [w|] eqn:Ew.
     + destruct (txout_eqb w o) eqn:Eq; [|discriminate]. intros H. injection H as <- <-.
       cbn [i_nwu i_wu]. repeat split.
@@ -125,7 +125,7 @@ Proof.
     cbn [map2 forallb]. rewrite Hc, andb_true_r.
     unfold post_input in Ep. unfold input_consistent. destruct (i_nwu i) as [ptx|]; [|reflexivity].
     destruct (bytes_eqb (pt_txid ptx) (ti_txid t)); [|discriminate]. cbn [negb andb] in *.
-    destruct (nth_error (pt_outs ptx) (N.to_nat (ti_vout t))) as [o|]; [|discriminate].
+    destruct (nth_N (pt_outs ptx) (ti_vout t)) as [o|]; [|discriminate].
     destruct (i_wu i) as [w|]; [|reflexivity]. destruct (txout_eqb w o); [reflexivity|discriminate].
 Qed.
 
